@@ -118,6 +118,20 @@ func (g *Gen) callCommon(in *ssa.Call, common *ssa.CallCommon, args []*SV, st *S
 	}
 	if key != "" {
 		g.lockOrder(key, common, st, reach, pos)
+		if in != nil {
+			g.lockOrderCallee(callee, st, reach, pos)
+			// functions handed to the callee run (as far as this check is concerned) during the call
+			for _, a := range common.Args {
+				switch x := a.(type) {
+				case *ssa.MakeClosure:
+					if f, ok := x.Fn.(*ssa.Function); ok {
+						g.lockOrderCallee(f, st, reach, pos)
+					}
+				case *ssa.Function:
+					g.lockOrderCallee(x, st, reach, pos)
+				}
+			}
+		}
 		if con, ok := g.cs.Funcs[key]; ok {
 			g.contractCall(in, con, callee, common, args, st, reach, pos)
 			return
@@ -441,17 +455,25 @@ func (g *Gen) lockOrder(key string, common *ssa.CallCommon, st *State, reach str
 		return
 	}
 	var op string
+	var fa *ssa.FieldAddr
 	switch key {
 	case "sync.(*RWMutex).Lock", "sync.(*RWMutex).RLock", "sync.(*Mutex).Lock":
 		op = "lock"
 	case "sync.(*RWMutex).Unlock", "sync.(*RWMutex).RUnlock", "sync.(*Mutex).Unlock":
 		op = "unlock"
 	default:
-		return
+		// an exported wrapper such as func (s *DB) RLock() { s.mu.RLock() }
+		op, fa = lockWrapper(common.StaticCallee())
+		if op == "" {
+			return
+		}
 	}
-	fa, ok := common.Args[0].(*ssa.FieldAddr)
-	if !ok {
-		return
+	if fa == nil {
+		var ok bool
+		fa, ok = common.Args[0].(*ssa.FieldAddr)
+		if !ok {
+			return
+		}
 	}
 	pt, ok := fa.X.Type().Underlying().(*types.Pointer)
 	if !ok {
@@ -462,11 +484,17 @@ func (g *Gen) lockOrder(key string, common *ssa.CallCommon, st *State, reach str
 		return
 	}
 	field := stt.Field(fa.Field).Name()
+	tname := ""
+	if nt, ok := types.Unalias(pt.Elem()).(*types.Named); ok {
+		tname = nt.Obj().Name()
+	}
 	names := strings.Split(order, "<")
 	rank := -1
 	for i, n := range names {
-		if strings.TrimSpace(n) == field {
+		n = strings.TrimSpace(n)
+		if n == field || n == tname+"."+field {
 			rank = i
+			field = n
 		}
 	}
 	if rank < 0 {
@@ -488,10 +516,122 @@ func (g *Gen) lockOrder(key string, common *ssa.CallCommon, st *State, reach str
 		g.safeCtr["lockorder"]++
 		g.addObl("lock-order", fmt.Sprint(n), implies(reach, and(none...)), pos, "acquiring "+field+": neither it nor a lock that must be taken after it ("+order+") is held", nil)
 		st.ghost["lock.held."+field] = "true"
-		g.trusted["lock order checked for nestings inside one function only (locks held by callers are not tracked)"] = true
+		g.trusted["lock order checked for nestings inside one function and its callees (locks held by callers are not tracked; calls through function values only as far as the VTA call graph resolves them)"] = true
 	} else {
 		st.ghost["lock.held."+field] = "false"
 	}
+}
+
+// lockOrderCallee: a call made while a lock of the order is held must not (transitively, per the
+// call graph, goroutine starts excluded) acquire that lock or one that precedes it. Only locks named
+// with their struct type ("T.f") are followed into callees: a bare field name is ambiguous there.
+func (g *Gen) lockOrderCallee(callee *ssa.Function, st *State, reach string, pos token.Pos) {
+	order := g.con.Opts["lock-order"]
+	if order == "" || callee == nil || callee.Pkg == nil {
+		return
+	}
+	names := strings.Split(order, "<")
+	for i := range names {
+		names[i] = strings.TrimSpace(names[i])
+	}
+	anyHeld := false
+	for _, n := range names {
+		if v, ok := st.ghost["lock.held."+n]; ok && v != "false" {
+			anyHeld = true
+		}
+	}
+	if !anyHeld {
+		return
+	}
+	if op, _ := lockWrapper(callee); op != "" {
+		return // handled as a lock operation
+	}
+	for j, n := range names {
+		if !strings.Contains(n, ".") {
+			continue
+		}
+		key := g.resolveLockName(n)
+		if key == "" || !g.prog.mayAcquire(callee, key) {
+			continue
+		}
+		var none []string
+		for i := j; i < len(names); i++ {
+			if v, ok := st.ghost["lock.held."+names[i]]; ok && v != "false" {
+				none = append(none, "(not "+v+")")
+			}
+		}
+		if len(none) == 0 {
+			continue
+		}
+		k := g.safeCtr["lockorder"]
+		g.safeCtr["lockorder"]++
+		g.addObl("lock-order", fmt.Sprint(k), implies(reach, and(none...)), pos, "calling "+callee.String()+", which may acquire "+n+": neither it nor a lock that must be taken after it ("+order+") is held", nil)
+	}
+}
+
+// lockWrapper recognises a method whose whole body locks or unlocks a mutex field of its receiver.
+func lockWrapper(f *ssa.Function) (string, *ssa.FieldAddr) {
+	if f == nil || len(f.Blocks) != 1 || len(f.Params) != 1 {
+		return "", nil
+	}
+	var op string
+	var fa *ssa.FieldAddr
+	for _, in := range f.Blocks[0].Instrs {
+		switch x := in.(type) {
+		case *ssa.Alloc, *ssa.Store, *ssa.RunDefers, *ssa.Return, *ssa.DebugRef, *ssa.FieldAddr:
+			// parameter spill and defer bookkeeping of the unoptimised SSA form
+		case *ssa.UnOp:
+			if x.Op != token.MUL {
+				return "", nil
+			}
+		case *ssa.Call:
+			if b, ok := x.Call.Value.(*ssa.Builtin); ok && strings.HasPrefix(b.Name(), "ssa:") {
+				continue
+			}
+			sc := x.Call.StaticCallee()
+			if sc == nil || sc.Pkg == nil || sc.Pkg.Pkg.Path() != "sync" || len(x.Call.Args) != 1 || op != "" {
+				return "", nil
+			}
+			a, ok := x.Call.Args[0].(*ssa.FieldAddr)
+			if !ok || (a.X != ssa.Value(f.Params[0]) && !derivesFromParam(a.X, 0)) {
+				return "", nil
+			}
+			fa = a
+			switch sc.Name() {
+			case "Lock", "RLock":
+				op = "lock"
+			case "Unlock", "RUnlock":
+				op = "unlock"
+			default:
+				return "", nil
+			}
+		default:
+			return "", nil
+		}
+	}
+	if op == "" || fa == nil {
+		return "", nil
+	}
+	return op, fa
+}
+
+// resolveLockName turns "T.f" of a lock-order option into "<pkgpath>.T.f": T is looked up in the
+// function's package and the packages it imports.
+func (g *Gen) resolveLockName(n string) string {
+	i := strings.Index(n, ".")
+	if i < 0 {
+		return ""
+	}
+	tn := n[:i]
+	pkgs := append([]*types.Package{g.fn.Pkg.Pkg}, g.fn.Pkg.Pkg.Imports()...)
+	for _, pk := range pkgs {
+		if obj := pk.Scope().Lookup(tn); obj != nil {
+			if _, ok := obj.(*types.TypeName); ok {
+				return pk.Path() + "." + n
+			}
+		}
+	}
+	return ""
 }
 
 // applyLemma assumes one instance of a lemma (proved as its own obligation unless marked assumed).
@@ -565,6 +705,13 @@ func (g *Gen) builtin(in *ssa.Call, b *ssa.Builtin, common *ssa.CallCommon, args
 			g.define(in, fmt.Sprint(u.Len()))
 		case *types.Pointer:
 			g.define(in, fmt.Sprint(u.Elem().Underlying().(*types.Array).Len()))
+		case *types.Chan:
+			if !g.pa {
+				g.fail(pos, "len of %s", common.Args[0].Type())
+			}
+			// number of queued elements: any non-negative value (channels are not modelled)
+			sv := g.defineHavoc(in, "len of a channel")
+			g.addFact("(>= " + sv.S + " 0)")
 		default:
 			g.fail(pos, "len of %s", common.Args[0].Type())
 		}
